@@ -4,7 +4,8 @@ CONSTANTS
   MaxLeaves2 = 4
   Mod = 6
   Typings = {"O", "I", "M"}
-  Tops = {"ret1", "ret2", "assign", "aug", "unpack"}
+  Tops = {"ret1", "ret2", "assign", "aug", "unpack", "member"}
+  ModMem = 60
   Dump = TRUE
 INVARIANT CanonInv
 INVARIANT AtMostOnce
@@ -13,5 +14,6 @@ INVARIANT AllEvaluated
 INVARIANT LeftToRight
 INVARIANT RhsFirst
 INVARIANT AugOrder
+INVARIANT MemberFirst
 INVARIANT Publish
 CHECK_DEADLOCK FALSE
